@@ -373,23 +373,25 @@ fn check_beam(
     // satisfies a check that the raw list fails, the failure is caused by
     // duplicate beam states and the signature says so.
     let full_has_dup = (0..full.len()).any(|i| (0..i).any(|j| full[i].0 == full[j].0));
+    // folded view of the returned window: its distinct label sequences, each
+    // with the log-sum-exp of *all* states of the final beam that carry it
     let folded: Vec<(Vec<u32>, f64)> = {
-        let mut v: Vec<(Vec<u32>, Vec<f64>)> = Vec::new();
-        for (ls, sc) in &full {
-            match v.iter_mut().find(|(k, _)| k == ls) {
-                Some((_, terms)) => terms.push(*sc as f64),
-                None => v.push((ls.clone(), vec![*sc as f64])),
+        let mut v: Vec<(Vec<u32>, f64)> = Vec::new();
+        for (ls, _) in &summary {
+            if v.iter().any(|(k, _)| k == ls) {
+                continue;
             }
+            let terms: Vec<f64> = full.iter().filter(|(k, _)| k == ls).map(|(_, sc)| *sc as f64).collect();
+            v.push((ls.clone(), lse64(&terms)));
         }
-        let mut v: Vec<(Vec<u32>, f64)> = v.into_iter().map(|(k, t)| (k, lse64(&t))).collect();
         v.sort_by(|a, b| b.1.total_cmp(&a.1));
-        v.truncate(n_best as usize);
         v
     };
+    let dups_in_window = summary.len() - folded.len();
     let raw: Vec<(Vec<u32>, f64)> = summary.iter().map(|(l, s)| (l.clone(), *s as f64)).collect();
 
     // checks 3..5 on a list of (labels, score); returns (kind, detail)
-    let tail_checks = |list: &[(Vec<u32>, f64)]| -> Option<(&'static str, String)> {
+    let tail_checks = |list: &[(Vec<u32>, f64)], slack: usize| -> Option<(&'static str, String)> {
         let ex: Vec<f64> = list.iter().map(|(ls, _)| exact_of(&to_u8(ls))).collect();
         // 3. unpruned regime: exact scores and the top-n set
         if let Some(sorted_exact) = unpruned {
@@ -402,7 +404,7 @@ fn check_beam(
                     ));
                 }
             }
-            let want_n = (n_best as usize).min(n_pos);
+            let want_n = (n_best as usize).min(n_pos).saturating_sub(slack);
             if list.len() < want_n {
                 return Some((
                     "too-few-hypotheses-unpruned",
@@ -438,8 +440,8 @@ fn check_beam(
         }
         None
     };
-    if let Some((kind, detail)) = tail_checks(&raw) {
-        let by_dup = (full_has_dup && tail_checks(&folded).is_none()) || {
+    if let Some((kind, detail)) = tail_checks(&raw, 0) {
+        let by_dup = (full_has_dup && tail_checks(&folded, dups_in_window).is_none()) || {
             // Duplicate states may have been pruned again before the final step
             // (after displacing real states or splitting their mass). The beam
             // after step k is observable as the full beam of the first k rows.
@@ -472,7 +474,7 @@ fn check_beam(
                     let mut v: Vec<(Vec<u32>, f64)> = v.into_iter().map(|(k, t)| (k, lse64(&t))).collect();
                     v.sort_by(|a, b| b.1.total_cmp(&a.1));
                     v.truncate(n_best as usize);
-                    tail_checks(&v).is_none()
+                    tail_checks(&v, 0).is_none()
                 }
         };
         let sig = if by_dup { format!("beam:duplicate-beam-states:{kind}") } else { format!("beam:{kind}") };
